@@ -33,6 +33,17 @@ def err? {α} : Except Err α → Option Err
   | .ok _ => none
   | .error e => some e
 
+/-! ## allocation: the heap is a parameter
+
+A fresh block of `n` cells holds whatever the allocator hands back: `g k` at cell `k`.
+`np.empty` returns it as it is, `np.zeros` / `np.full` overwrite every cell. -/
+
+/-- `np.empty(n)`: a block of `n` cells with previous content `g` -/
+def npEmpty {β} (n : Nat) (g : Nat → β) : List β := tabulate n g
+
+/-- `np.full(n, z)` (`np.zeros` for `z = 0`): allocate, then overwrite every cell -/
+def npFull {β} (z : β) (n : Nat) (g : Nat → β) : List β := (npEmpty n g).map (fun _ => z)
+
 /-! ## (i) masked element-wise operation -/
 
 /-- Cells of the output buffer after a masked operation: `f args[i]` where the mask is true,
@@ -80,14 +91,14 @@ def entropyWith (lg : Rat → FV) (p : List Rat) (out : Option (List FV)) (g : L
   let L ← maskedApply lg (p.map (fun x => decide (0 < x))) p out g
   pure (FV.neg (FV.sum (List.zipWith (fun x l => FV.mul (some x) l) p L)))
 
-/-- the code as it is: `out=np.zeros(np.shape(p))` -/
-def shannonEntropy (lg : Rat → FV) (p : List Rat) (g : List FV) : Except Err FV :=
-  entropyWith lg p (some (List.replicate p.length (some 0))) g
+/-- the code as it is: `out=np.zeros(np.shape(p))`; `g` is the heap content both allocations see -/
+def shannonEntropy (lg : Rat → FV) (p : List Rat) (g : Nat → FV) : Except Err FV :=
+  entropyWith lg p (some (npFull (some 0) p.length g)) (npEmpty p.length g)
 
 /-- the code before the fix (no `out=`): kept to state what the obligation on the generated site
 table protects against. -/
-def shannonEntropyNoOut (lg : Rat → FV) (p : List Rat) (g : List FV) : Except Err FV :=
-  entropyWith lg p none g
+def shannonEntropyNoOut (lg : Rat → FV) (p : List Rat) (g : Nat → FV) : Except Err FV :=
+  entropyWith lg p none (npEmpty p.length g)
 
 /-- what the routine is meant to compute: `- Σ_{p_i > 0} p_i · log p_i` -/
 def entropySpec (lg : Rat → FV) (p : List Rat) : FV :=
@@ -97,11 +108,11 @@ def entropySpec (lg : Rat → FV) (p : List Rat) : FV :=
 
 /-- `_prepare_for_2d_to_1d_distance` L44-72 (dtype check on `out` not modelled: one value type).
 `X` is `nrows` rows of `ncols` values. -/
-def prepare (X : List (List Rat)) (ncols : Nat) (y : List Rat) (out : Option (List Rat)) :
-    Except Err (List Rat) :=
+def prepare (X : List (List Rat)) (ncols : Nat) (y : List Rat) (out : Option (List Rat))
+    (g : Nat → Rat) : Except Err (List Rat) :=
   if ncols ≠ y.length then .error .dataInvalid          -- L48
   else match out with
-    | none => .ok (List.replicate X.length 0)           -- L56 np.zeros
+    | none => .ok (npFull 0 X.length g)                 -- L56 np.zeros on a block with content `g`
     | some o => if o.length ≠ X.length then .error .dataInvalid else .ok o   -- L63
 
 def absR (q : Rat) : Rat := if q < 0 then -q else q
@@ -147,21 +158,21 @@ def hammingKernel (X : List (List Rat)) (ncols : Nat) (y : List Rat) (out : List
   else .error .assertion
 
 /-- `manhattan(X, y, out=None)` L166-183 -/
-def manhattan (X : List (List Rat)) (ncols : Nat) (y : List Rat) (out : Option (List Rat)) :
-    Except Err (List Rat) := do
-  let o ← prepare X ncols y out
+def manhattan (X : List (List Rat)) (ncols : Nat) (y : List Rat) (out : Option (List Rat))
+    (g : Nat → Rat) : Except Err (List Rat) := do
+  let o ← prepare X ncols y out g
   manhattanKernel X ncols y o
 
 /-- `euclidean(X, y, out=None)` L148-164 -/
 def euclidean (sqrtF : Rat → Rat) (X : List (List Rat)) (ncols : Nat) (y : List Rat)
-    (out : Option (List Rat)) : Except Err (List Rat) := do
-  let o ← prepare X ncols y out
+    (out : Option (List Rat)) (g : Nat → Rat) : Except Err (List Rat) := do
+  let o ← prepare X ncols y out g
   euclideanKernel sqrtF X ncols y o
 
 /-- `hamming(X, y, out=None)` L186-203 -/
-def hamming (X : List (List Rat)) (ncols : Nat) (y : List Rat) (out : Option (List Rat)) :
-    Except Err (List FV) := do
-  let o ← prepare X ncols y out
+def hamming (X : List (List Rat)) (ncols : Nat) (y : List Rat) (out : Option (List Rat))
+    (g : Nat → Rat) : Except Err (List FV) := do
+  let o ← prepare X ncols y out g
   hammingKernel X ncols y o
 
 /-! ## (iii) libinfo.pyx `matrix_bincount2d` L50-76 -/
@@ -173,10 +184,19 @@ def column (a : List (List Int)) (c : Nat) : List Int := a.filterMap (fun r => r
 def pairCount (ca cb : List Int) (i j : Nat) : Nat :=
   ((ca.zip cb).filter (fun p => decide (p.1 = (i : Int)) && decide (p.2 = (j : Int)))).length
 
-/-- the `+= 1` loop L69-74 started from the content `jc0` of the freshly allocated block -/
-def bincountFrom (jc0 : Nat → Nat → Nat → Nat → Nat) (a b : List (List Int)) :
-    Nat → Nat → Nat → Nat → Nat :=
-  fun fa fb i j => jc0 fa fb i j + pairCount (column a fa) (column b fb) i j
+/-- position of `jc[x, y, i, j]` in the C-contiguous block of shape `(fa, fb, na, nb)` -/
+def flatIndex (fb na nb x y i j : Nat) : Nat := ((x * fb + y) * na + i) * nb + j
+
+/-- the `+= 1` loop L69-74 run on the block `buf` (whatever it holds): every cell ends up with its
+previous content plus the number of co-occurrences.  A position outside the block is an error (it does
+not occur for the block sizes the callers build). -/
+def bincountFrom (buf : List Nat) (a b : List (List Int)) (fa fb na nb : Nat) :
+    Except Err (List (List (List (List Nat)))) :=
+  (List.range fa).mapM fun x => (List.range fb).mapM fun y => (List.range na).mapM fun i =>
+    (List.range nb).mapM fun j =>
+      match buf[flatIndex fb na nb x y i j]? with
+      | some v => .ok (v + pairCount (column a x) (column b y) i j)
+      | none => .error .assertion
 
 def maxOf (l : List Int) : Option Int :=
   l.foldl (fun m x => match m with
@@ -188,12 +208,9 @@ def minOf (l : List Int) : Option Int :=
     | none => some x
     | some y => some (if x < y then x else y)) none
 
-/-- `matrix_bincount2d(a, b, n_a, n_b)`: `a` is `T × fa`, `b` is `T' × fb`; the assertions are
-checked in the code's order (`.max()` of an empty array is numpy's `ValueError`).  `g` is the
-content of the block `np.zeros` obtains from the allocator — `np.zeros` overwrites it. -/
-def matrixBincount2d (a : List (List Int)) (fa : Nat) (b : List (List Int)) (fb : Nat)
-    (na nb : Nat) (_g : Nat → Nat → Nat → Nat → Nat) :
-    Except Err (List (List (List (List Nat)))) := do
+/-- the assertions of `matrix_bincount2d` L56-61, in the code's order (`.max()` of an empty array is
+numpy's `ValueError`) -/
+def bincountGuard (a b : List (List Int)) (na nb : Nat) : Except Err Unit := do
   if a.length ≠ b.length then throw .assertion                       -- L57
   let amax ← match maxOf a.flatten with
     | none => throw .valueError
@@ -205,7 +222,35 @@ def matrixBincount2d (a : List (List Int)) (fa : Nat) (b : List (List Int)) (fb 
   if ¬ bmax < nb then throw .assertion                               -- L59
   if (minOf a.flatten).any (fun m => m < 0) then throw .assertion      -- L60
   if (minOf b.flatten).any (fun m => m < 0) then throw .assertion      -- L61
-  let jc := bincountFrom (fun _ _ _ _ => 0) a b                      -- L63 np.zeros, L69-74
-  pure (tabulate fa fun x => tabulate fb fun y => tabulate na fun i => tabulate nb fun j => jc x y i j)
+
+/-- `matrix_bincount2d(a, b, n_a, n_b)`: `a` is `T × fa`, `b` is `T' × fb`.  `g` is what the block the
+allocator hands out held before; `np.zeros` (L63) overwrites every cell of it, then the loop accumulates. -/
+def matrixBincount2d (a : List (List Int)) (fa : Nat) (b : List (List Int)) (fb : Nat)
+    (na nb : Nat) (g : Nat → Nat) : Except Err (List (List (List (List Nat)))) := do
+  bincountGuard a b na nb
+  bincountFrom (npFull 0 (fa * fb * na * nb) g) a b fa fb na nb        -- L63 np.zeros, L69-74
+
+/-- the same kernel with `np.empty` instead of `np.zeros` (what `all_alloc_sites_initialised` and
+`all_accumulators_initialised` exclude): kept to show that the zeroing is what the theorem is about -/
+def matrixBincount2dNoZero (a : List (List Int)) (fa : Nat) (b : List (List Int)) (fb : Nat)
+    (na nb : Nat) (g : Nat → Nat) : Except Err (List (List (List (List Nat)))) := do
+  bincountGuard a b na nb
+  bincountFrom (npEmpty (fa * fb * na * nb) g) a b fa fb na nb
+
+/-! ## the shape of the property -/
+
+/-- A routine under an execution semantics: besides its arguments, an execution sees a world `W` (heap
+contents, schedule, worker count, call history …); it yields a value and the arguments as the caller
+finds them afterwards. -/
+structure Routine (W : Type) where
+  Args : Type
+  Val : Type
+  run : W → Args → Val × Args
+  /-- documented to work in place -/
+  inPlace : Bool
+
+/-- value determined by the arguments alone; arguments untouched unless documented in place -/
+def ArgumentsOnly {W} (r : Routine W) : Prop :=
+  (∃ f : r.Args → r.Val, ∀ w a, (r.run w a).1 = f a) ∧ (r.inPlace = false → ∀ w a, (r.run w a).2 = a)
 
 end Ens.Masked
